@@ -18,7 +18,13 @@ Definition rank_rec : Type := nat * list nat * nat * list Z * list (nat * list n
 Inductive hop := HSet (e : Z) | HIter (rr : rank_rec).
 Definition hist_t : Type := nat * list hop.
 
-Definition case_t : Type := scfg * list rank_rec * list nat * hist_t.
+(* a sampler constructed with (possibly default) rank / world_size arguments in a process with a history:
+   the events of the process before the construction, the rank and world_size arguments (None = default), the epoch
+   set, and what len(sampler) / list(sampler) showed.  Result code 3 = the constructor raised because no process
+   group is there to take the default from / the rank is out of range (torch's DistributedSampler only). *)
+Definition pg_rec : Type := list pg_event * option nat * option nat * Z * rank_rec.
+
+Definition case_t : Type := scfg * list rank_rec * list nat * hist_t * list pg_rec.
 
 Definition replay (ds : list (nat * list nat)) : oracle := fun _ h _ => snd (nth (length h) ds (0, [])).
 
@@ -76,6 +82,21 @@ Definition hist_agrees (s : scfg) (h : hist_t) : bool :=
   let ms := model_object s (replay_by_seed (seed_table recs)) rank (ops_of hs) in
   (length ms =? length recs) && forallb (fun '(m, rr) => run_agrees m rr) (combine ms recs).
 
+(* --- samplers built with default arguments under a process-group history --- *)
+Definition built_agrees (s : scfg) (p : pg_rec) : bool :=
+  let '(evs, rank, world, e, rr) := p in
+  let '(code, _, _, _, ds) := rr in
+  let g := pg_after pg_fresh evs in
+  match s with
+  | SDist c => match dist_built (d_set_epoch c e) rank world g (replay ds) with
+               | Some m => run_agrees m rr
+               | None => code =? 3
+               end
+  | SW c => run_agrees (w_built (w_set_epoch c e) rank world g (replay ds)) rr
+  | SCB c => run_agrees (cb_built (cb_set_epoch c e) rank world g (replay ds)) rr
+  | SRand _ => false
+  end.
+
 Definition cfg_epoch (s : scfg) : Z :=
   match s with SDist c => d_epoch c | SRand _ => 0 | SW c => w_epoch c | SCB c => cb_epoch c end%Z.
 
@@ -125,10 +146,10 @@ Definition spec_holds (s : scfg) (recs : list rank_rec) (G : list nat) (h : hist
 (* 0 = implementation, model and spec agree; 1 = the model differs from the
    implementation; 2 = the spec is false of the implementation's output *)
 Definition check (t : case_t) : nat :=
-  let '(s, recs, G, h) := t in
+  let '(s, recs, G, h, pgs) := t in
   if negb ((length recs =? world s) &&
            forallb (fun '(rank, rr) => rank_agrees s rank rr) (combine (seq 0 (length recs)) recs) &&
-           hist_agrees s h)
+           hist_agrees s h && forallb (built_agrees s) pgs)
   then 1
   else if forallb (fun '(code, _, _, _, _) => code =? 0) recs
        then (if spec_holds s recs G h then 0 else 2)
